@@ -174,6 +174,7 @@ def core_periphery_dir(W, gamma=1, C0=None, seed=None):
     '''
     rng = get_rng(seed)
     n = len(W)
+    W = W.copy()
     np.fill_diagonal(W, 0)
 
     if C0 == None:
@@ -396,6 +397,7 @@ def local_assortativity_wu_sign(W):
     '''
     n = len(W)
 
+    W = W.copy()
     np.fill_diagonal(W, 0)
     r_pos = assortativity_wei(W * (W > 0))
     r_neg = assortativity_wei(W * (W < 0))
